@@ -9,6 +9,7 @@ usage: seed_eval.py <mutant_dir> <property_id> <name> [--tier quick] [--extra-ch
 import json, os, re, shutil, subprocess, sys, tempfile
 
 VERIF = os.path.dirname(os.path.dirname(os.path.abspath(__file__)))
+SCRATCH = os.environ.get("SEED_SCRATCH") == "1"
 
 
 def sh(cmd, cwd=None, timeout=3600, env=None):
@@ -45,17 +46,21 @@ def main():
         res.update({"demo_clean_rc": rc0, "demo_mutant_rc": rc1, "tests_lost": sorted(base - mut), "n_pass_clean": len(base), "n_pass_mutant": len(mut),
                     "demo_mutant_tail": o1[-400:]})
     finally:
-        sh("git -C /repo worktree remove --force %s" % wt)
-        shutil.rmtree(wt, ignore_errors=True)
+        if not SCRATCH:
+            sh("git -C /repo worktree remove --force %s" % wt)
+            shutil.rmtree(wt, ignore_errors=True)
     res["valid"] = (res.get("demo_clean_rc") == 0 and res.get("demo_mutant_rc") != 0 and not res.get("tests_lost"))
     print("validity:", {k: res[k] for k in ("demo_clean_rc", "demo_mutant_rc", "tests_lost", "valid")})
-    # run the checks against it
-    assert sh("git -C /repo status --porcelain")[1].strip() == "", "/repo not clean"
-    res["checks"] = {}
+    # run the checks against it (SEED_SCRATCH=1: in the scratch worktree through DREYE_REPO, for triage while /repo is busy;
+    # the stored result of record comes from seed_replay.py, which applies the patch to /repo itself)
+    if not SCRATCH:
+        assert sh("git -C /repo status --porcelain")[1].strip() == "", "/repo not clean"
+    res["checks"] = {}; res["mode"] = "scratch-worktree" if SCRATCH else "applied-to-/repo"
     try:
-        assert sh("git -C /repo apply %s" % patch)[0] == 0
+        if not SCRATCH:
+            assert sh("git -C /repo apply %s" % patch)[0] == 0
         for c in checks:
-            rc, out = sh("./check %s --tier quick" % c, cwd=VERIF, env=dict(os.environ, VERIF_NO_EVIDENCE="1"))
+            rc, out = sh("./check %s --tier quick" % c, cwd=VERIF, env=dict(os.environ, VERIF_NO_EVIDENCE="1", **({"DREYE_REPO": wt} if SCRATCH else {})))
             lines = [l for l in out.splitlines() if l.startswith("VIOLATION") or l.startswith("KNOWN")]
             detail = []
             for l in lines:
@@ -66,8 +71,12 @@ def main():
             res["checks"][c] = {"exit": rc, "lines": lines, "detail": detail, "tail": out.splitlines()[-1] if out else ""}
             print(c, "exit", rc, lines[:3], detail[:2])
     finally:
-        sh("git -C /repo checkout -- .")
-        assert sh("git -C /repo status --porcelain")[1].strip() == ""
+        if SCRATCH:
+            sh("git -C /repo worktree remove --force %s" % wt)
+            shutil.rmtree(wt, ignore_errors=True)
+        else:
+            sh("git -C /repo checkout -- .")
+            assert sh("git -C /repo status --porcelain")[1].strip() == ""
     res["caught_by"] = [c for c, r in res["checks"].items() if r["exit"] == 1 and any(l.startswith("VIOLATION") for l in r["lines"])]
     if res["valid"]:
         d = os.path.join(VERIF, "seeded", name)
